@@ -8,9 +8,13 @@
    amount and kind of white space between its words and around parentheses - is tokenized to the one
    whole-span match (every other match is contained in it and removed by the overlap filter; the
    gap-filling walk adds nothing) and parsed to the symbol of the entry that owns these words, which
-   renders as the canonical key; strictly too when that license is not an exception. The operator
-   contexts (the name as an operand next to other tokens, longest / leftmost among partially
-   overlapping matches) are decided by the oracle and the correspondence. *)
+   renders as the canonical key; strictly too when that license is not an exception.
+   C04_known_names_as_operands (tables without operator words): wherever a known name - any key or alias, in any letter
+   case and spacing - stands as a complete operand of a derivation of the grammar, next to operators, parentheses, WITH and
+   other licenses, it is resolved to the symbol of the entry that owns these words and the text parses to the tree of the
+   derivation (the layout theorem of C02, Proofs/Layout.v).  For tables whose names hold operator words, and for the
+   longest / leftmost rule among partially overlapping matches, the selection theorems of C17 apply and the operator contexts
+   are decided by the oracle and the correspondence. *)
 Require Import Model.Base Model.Expr Model.Split Model.Trie Model.Overlap Model.LicTok.
 Require Import Model.Licensing Proofs.Trie Proofs.Overlap Proofs.Recognise.
 
@@ -50,3 +54,20 @@ Theorem C04_tokenized_to_one_token : forall O T text sp v,
   t_tokenize O (build_trie O T) text = [occurrence_tok text wps (last wps dpiece) v].
 Proof. exact tokenize_alone. Qed.
 Print Assumptions C04_tokenized_to_one_token.
+
+Require Import Model.BoolParse Proofs.BoolParse Proofs.Render Proofs.Reparse Proofs.Layout.
+Theorem C04_known_names_as_operands : forall O, is_space O 32%N = true ->
+  (lower O S_AND = s_and /\ lower O S_OR = s_or /\ lower O S_WITH = s_with /\ lower O s_lpar = s_lpar /\ lower O s_rpar = s_rpar) ->
+  (forall c, In c [97; 110; 100; 111; 114; 119; 105; 116; 104; 40; 41]%N -> is_space O c = false /\ lower_ch O c = [c]) ->
+  forall T : list entry,
+  (forall n v, In (n, v) (flat_map (entry_adds O) T) -> forall w, In w (lwords O n) -> is_keyword_str w = false) ->
+  forall text (gus : list (list piece * unit_)) (d : orx),
+  concat (map fst gus) = filter (is_word_piece O) (pieces O text) ->
+  (forall g k, In (g, UK k) gus -> exists p, g = [p] /\ lower O (ptext p) = kw_str k) ->
+  (forall g s, In (g, US s) gus ->
+     g <> [] /\ (forall p, In p g -> is_keyword_str (lower O (ptext p)) = false) /\ (known_group O T g s \/ unknown_group O T g s)) ->
+  alt sepu (map snd gus) ->
+  map snd gus = flat_map units_of (map kind_of (tok_or d)) ->
+  parse_tokens O T false false text = Ok (tree_or d).
+Proof. exact layout_parses_derivation. Qed.
+Print Assumptions C04_known_names_as_operands.
